@@ -118,6 +118,8 @@ def cases(draw):
     if draw(st.integers(0, 2)) == 0:
         ops.insert(draw(st.integers(0, len(ops))), {"op": "bad_ctor", "how": draw(st.sampled_from(["loops0", "cache0", "cache_neg", "nonanimated"]))})
     c["ops"] = ops
+    # the whole history runs while the caller is handling an unrelated exception (inside an `except` block)
+    c["handling"] = draw(st.integers(0, 2)) == 0
     return c
 
 
@@ -131,6 +133,16 @@ class ItState:
 
 
 def check_history(case, rec):
+    if case.get("handling"):
+        rec.label("while_handling_an_exception")
+        try:
+            raise LookupError("an unrelated error the caller is handling")
+        except LookupError:
+            return _check_history(case, rec)
+    return _check_history(case, rec)
+
+
+def _check_history(case, rec):
     from term_image.render import FinalizedIteratorError, RenderIterator
     from term_image.renderable import RenderArgs, RenderError, Seek
 
@@ -466,10 +478,21 @@ def check_history(case, rec):
 @st.composite
 def family_cases(draw):
     return {"ops": draw(st.lists(st.tuples(st.integers(0, 3), st.sampled_from(["render", "str", "draw", "iterate", "iter_close"])),
-                                 min_size=1, max_size=7))}
+                                 min_size=1, max_size=7)),
+            "handling": draw(st.integers(0, 2)) == 0}
 
 
 def check_families(case, rec):
+    if case.get("handling"):
+        rec.label("while_handling_an_exception")
+        try:
+            raise LookupError("an unrelated error the caller is handling")
+        except LookupError:
+            return _check_families(case, rec)
+    return _check_families(case, rec)
+
+
+def _check_families(case, rec):
     """A fresh family of render classes per case -- Parent (no finalizer of its own), Child(Parent) defining one,
     GrandChild(Child) inheriting it, Sibling(Parent) without -- is used in a generated order through the public entry
     points.  Every render data object is finalized exactly once when its operation is over, and the finalizer its class
